@@ -31,6 +31,7 @@ import (
 	"flag"
 	"fmt"
 	"io"
+	iofs "io/fs"
 	"os"
 	"os/exec"
 	"path/filepath"
@@ -517,6 +518,11 @@ func (d *c17Dec) Decode(r io.Reader, _ *dials.Type) (reflect.Value, error) {
 	ok := c17ValidText(b)
 	d.s.add(c17Ent{K: "read", D: string(b), V: ok})
 	if !ok {
+		if len(b)%2 == 0 {
+			// a decoder's error may well wrap "no such file" (a field naming a certificate that is not there, an
+			// include that cannot be resolved): the CONFIG file exists all the same and the content is invalid
+			return reflect.Value{}, fmt.Errorf("c17: content does not decode: %w", &iofs.PathError{Op: "stat", Path: "referenced.pem", Err: syscall.ENOENT})
+		}
 		return reflect.Value{}, errors.New("c17: content does not decode")
 	}
 	v := string(b)
@@ -1864,6 +1870,8 @@ func c17RunOne(c *Ctx, h c17Hist, base string) *c17Out {
 		return c17RunR27(c, h, base)
 	case "ovf":
 		return c17RunOvf(c, h, base)
+	case "two":
+		return c17RunTwo(c, h, base)
 	}
 	return c17RunFree(c, h, base)
 }
@@ -2023,6 +2031,8 @@ func checkC17(c *Ctx) {
 	res.Rule = "histories of 1-12 operations over {in-place rewrite (one write / two chunks), atomic rename-over, Kubernetes-style ..data symlink swap incl. removal of the old timestamped directory, " +
 		"delete-and-recreate} x {new valid content, identical bytes, malformed content}, pauses from {0, 1 ms, 20 ms} before and inside operations, plain and Kubernetes layouts (k8s -> plain by renaming over the symlink), " +
 		"8% invalid initial files; modes: free (event driven, racing), step (rendezvous through the Reload channel, exact model state, kernel watch table from /proc/self/fdinfo), e2e (dials.Config + JSON decoder), " +
+		"two (two watched files stacked under a Verify that relates them: a file's final content rejected when reported must still be part of the view once the other file makes the whole valid), " +
+		"the direct modes' decoder fails on malformed content with a plain error or with one that wraps ENOENT (the config file exists all the same); " +
 		"plus ..data swaps whose old target stays in place and regular-file-to-symlink transitions, the deterministic regression streams r25/r26/r27 of the repaired defects D25-D27, the inotify-queue-overflow stream ovf (loop parked in the decoder, ~2*(max_queued_events/2+7096) unrelated mkdir/rmdir events, config rewritten, loop released) and an event-filter / select-arm stream; histories run in child processes (listed finding D28 can kill the process); " +
 		"non-trivial: at least 2 operations of at least 2 different (mechanism, content) kinds and at least one reported version; distinct = by operation list and observed report/error sequence"
 	base := c.WorkDir
@@ -2061,6 +2071,13 @@ func checkC17(c *Ctx) {
 	}
 	for i := 0; i < nE2E; i++ {
 		hs = append(hs, c17GenHist(r.Fork(), fmt.Sprintf("e%d", i), "e2e"))
+	}
+	nTwo := c.scale(60, 600)
+	if c.Search {
+		nTwo /= 2
+	}
+	for i := 0; i < nTwo; i++ {
+		hs = append(hs, c17GenTwo(r.Fork(), fmt.Sprintf("t%d", i)))
 	}
 	for i := 0; i < nKnown; i++ {
 		id := fmt.Sprintf("k%d", i)
